@@ -4,6 +4,7 @@
 -/
 import YalafiVerif.Model.Proto
 import YalafiVerif.Model.Tex2txt
+import YalafiVerif.Model.Shell
 import YalafiVerif.Generated.Tables
 open Yalafi Yalafi.Proto
 
@@ -93,6 +94,78 @@ def opT2T : R (List String) := do
     pure (["ok"] ++ encToks r.toks ++ encTxtPos (r.txt, r.pos) ++ encParts r.parts
           ++ (toString r.unknowns.length :: r.unknowns.map encStr) ++ encDiags r.diags ++ [encBool r.foreign])
 
+/-- the JSON value of one field, by a tag: n (missing) | i <int> | t | f | s | d | z | a | o -/
+def jfield : R (Option Json) := do
+  let tag ← next
+  match tag with
+  | "n" => pure none
+  | "i" => do let v ← int; pure (some (.int v))
+  | "t" => pure (some (.bool true))
+  | "f" => pure (some (.bool false))
+  | "s" => pure (some (.str []))
+  | "d" => pure (some .float)
+  | "z" => pure (some .null)
+  | "a" => pure (some (.arr []))
+  | "o" => pure (some (.obj []))
+  | _ => throw "bad json tag"
+
+def encSOut {α} (x : SOut α) (f : α → List String) : List String :=
+  match x with
+  | .ok a => "ok" :: f a
+  | .fatal => ["fatal"]
+  | .crash s => ["crash", s]
+
+def opMap : R (List String) := do
+  let cm ← intList
+  let latex ← str
+  let off ← int
+  let len ← jfield
+  pure (encSOut (mapMatch cm latex off len) (fun r => [toString r.1, toString r.2]))
+
+def opAsmSort : R (List String) := do
+  let parts ← list (do
+    let plain ← str
+    let cm ← intList
+    let offs ← intList
+    pure (({ plain := plain, charmap := cm } : Part), offs.map (fun o => ({ offset := o, rest := .null } : RawMatch))))
+  let a := assemble parts
+  pure (encSOut (sortMatches a.charmapTot a.hits) (fun ms =>
+    [encStr a.plainTot, encIntList a.charmapTot, encIntList (ms.map (·.offset))]))
+
+def opLineCol : R (List String) := do
+  let tex ← str
+  let off ← nat
+  let len ← nat
+  let tl := textLineCol tex off
+  let x := xmlFields tex off len
+  pure ["ok", toString tl.1, toString tl.2, toString x.1, toString x.2.1, toString x.2.2.1, toString x.2.2.2,
+        toString (utf8Size ((tex.take off).drop (off - colIdx tex off)))]
+
+def opProtect : R (List String) := do
+  let s ← str
+  pure ["ok", encStr (protectHtml s)]
+
+def opSingle : R (List String) := do
+  let plain ← str
+  let hits ← list (do let a ← nat; let b ← nat; pure (a, b))
+  pure ["ok", encNatList (singleLetterOffsets T plain hits)]
+
+def opContext : R (List String) := do
+  let txt ← str
+  let off ← nat
+  let len ← nat
+  let c := createContext txt off len
+  pure ["ok", encStr c.text, toString c.offset, toString c.length]
+
+def opInclude : R (List String) := do
+  let graph ← list (do let f ← str; let inc ← list str; pure (f, inc))
+  let skipped ← list str
+  let roots ← list str
+  let includes (f : Str) : List Str := ((graph.find? (·.1 == f)).map (·.2)).getD []
+  match includeLoop includes (fun f => skipped.contains f) (4 * (graph.length + roots.length) * (graph.length + roots.length + 2) + 8) roots [] with
+  | some done => pure ("ok" :: toString done.length :: done.map encStr)
+  | none => pure ["fuel"]
+
 def dispatch (op : String) : R (List String) :=
   match op with
   | "SCAN" => opScan
@@ -104,6 +177,13 @@ def dispatch (op : String) : R (List String) :=
   | "SPANS" => opSpans
   | "ML" => opML
   | "T2T" => opT2T
+  | "MAP" => opMap
+  | "ASMSORT" => opAsmSort
+  | "LINECOL" => opLineCol
+  | "PROTECT" => opProtect
+  | "SINGLE" => opSingle
+  | "CONTEXT" => opContext
+  | "INCLUDE" => opInclude
   | _ => throw s!"unknown op {op}"
 
 def handle (line : String) : String :=
